@@ -1,4 +1,5 @@
 """C01 -- slim and native forms are exact, order-preserving inverses under any mask."""
+import copy
 import itertools
 import numpy as np
 from harness.common import cz, cnat, cbool, clist, ctup, import_aa
@@ -19,13 +20,24 @@ RULE = ("every boolean mask (2^(H*W), all-masked excluded at class level) of eve
         "and twice; one Mask2D followed through in-place edits mask[y, x] = b / copy() / with_new_array / invert(), re-reading "
         "derive_indexes.native_for_slim / unmasked_slim / masked_slim and Array2D(values, mask).slim / .native after every step; "
         "values scaled by 2**-40 / 2**40 (exact), value streams containing exact zeros; the caller's arrays are re-read after "
-        "the calls. Non-trivial = mask has both masked and unmasked pixels; distinct = distinct JSON input.")
+        "the calls. Phase 3: sibling util functions (grid / complex / via-indexes / convert_*_to_slim / _to_native / 1-D variants, "
+        "Fortran-ordered and negative-stride arrays), Kernel2D, classmethod constructors (no_mask / full / ones / zeros of all six "
+        "classes), apply_mask of fresh and derived objects on every pair of masks, the grid argument of a vector field in its own "
+        "form, Mask1D histories, several masks in a row inside ONE case (same shape + same count, same bits under another shape, "
+        "the first mask again; the same ndarray objects overwritten in place), entry forms: subclass instances, masks built from "
+        "masks, anisotropic pixel scales + origin, float32 / bool / non-contiguous arrays; every argument (lists, arrays, "
+        "structures, masks, grids) fingerprinted before and after the call; directed masks with a dimension / flat index / slim "
+        "index beyond 256. Non-trivial = mask has both masked and unmasked pixels; distinct = distinct JSON input.")
 EXHAUSTIVE = {
     "quick": "util level: all masks of all shapes with H*W <= 10; class level: all masks with >=1 unmasked pixel, H*W <= 8, "
              "4 (input form, store_native) modes rotating over Array2D/Grid2D/VectorYX2D; 1-D: all masks of length <= 8; "
              "histories: one object history and one mask history per mask with >=1 unmasked pixel and H*W <= 6, for H*W in {7, 8} one "
-             "third of the masks gets an object history and one third a mask history; 1-D: one object history per mask of length <= 8",
-    "thorough": "util level: H*W <= 14; class level: H*W <= 12; 1-D: length <= 12; histories: two per mask, H*W <= 10 (1-D: length <= 10)",
+             "third of the masks gets an object history and one third a mask history; 1-D: one object history per mask of length <= 8; "
+             "phase 3: sibling util functions on all masks with H*W <= 5 (every fourth with H*W = 6); apply_mask on every pair of masks "
+             "(>= 1 unmasked pixel each) with H*W <= 3 and every pair of 2x2 masks; Mask1D histories for every mask of length <= 5; "
+             "no_mask / full / ones / zeros for every shape up to 3x3",
+    "thorough": "util level: H*W <= 14; class level: H*W <= 12; 1-D: length <= 12; histories: two per mask, H*W <= 10 (1-D: length <= 10); "
+                "phase 3: sibling util functions H*W <= 7; apply_mask on every pair with H*W <= 4; Mask1D histories length <= 8",
 }
 TRUSTED = ["hand-written Gallina model coq/Model/C01.v of array_2d_util / grid_2d_util / array_1d_util / mask_2d_util / mask_1d_util "
            "conversion loops, of the .slim / .native accessors (re-construction from the object's current stored array) and of the "
@@ -35,9 +47,13 @@ TRUSTED = ["hand-written Gallina model coq/Model/C01.v of array_2d_util / grid_2
            "values are modelled polymorphically: the code performs no arithmetic on them except zeroing the masked entries of a "
            "native input (assignment of 0; inf / NaN at masked entries are part of the input streams)",
            "Python-level relations (py_ok): every reading taken twice, objects re-read at the end of a history, the caller's arrays "
-           "compared with copies taken before the call, `.array` of a constructed object = the form it was asked to store"]
+           "compared with copies taken before the call, `.array` of a constructed object = the form it was asked to store, "
+           "fingerprints (type, dtype, contents, pixel scales, origin) of every argument before / after the call, .y / .x of a vector "
+           "field = the planes of its readings, native_skip_mask of a slim-stored array = .native",
+           "the real / imaginary parts of the complex util variants are judged as two real planes; 1-D util results as one-row grids "
+           "(theorems C01_1d_*_is_one_row)"]
 ASSUMPTIONS = ["values at UNMASKED pixels are finite reals (inf / NaN only at masked entries)",
-               "complex / over-sampled variants are not modelled",
+               "complex CLASS-level inputs and over-sampled variants are not modelled (the complex util functions are covered)",
                "default configuration (general.structures.native_binned_only = false)"]
 
 def shapes_upto(n):
@@ -50,6 +66,7 @@ def all_masks(h, w):
 def vals(h, w, k):
     if k == 0: return [[1 + y * w + x for x in range(w)] for y in range(h)]
     if k == 2: return [[(y * w + 2 * x + y) % 3 - 1 for x in range(w)] for y in range(h)]      # exact zeros and ties
+    if k == 5: return [[(y * w + x + (y * w + x) // 3) % 2 for x in range(w)] for y in range(h)]   # 0 / 1 (bool-typed inputs)
     if k == 3: return [[(-1) ** (x + y) * ((3 + 2 * x + 7 * y) * 2 ** 30 + 1) for x in range(w)] for y in range(h)]   # > 24 significant bits
     return [[(-1) ** (x + y) * (3 + 2 * x + 7 * y + k) for x in range(w)] for y in range(h)]
 
@@ -58,7 +75,9 @@ KINDS = ["array", "grid", "vector"]
 # inf / NaN at MASKED entries of native inputs and of natively stored arrays are part of the streams for all five classes
 # (zeroing is by assignment since /repo e8113b3 (arrays) and 6af65c9 (grids, vector fields, 1-D grids)).
 FORMS = [0, 0, 0, 1, 2, 3]          # entry form of the mask / of the values: see make_mask / give
-AFF = ["add", "radd", "sub", "rsub", "mul", "rmul", "neg", "copy"]
+MFORMS = [0, 0, 1, 2, 3, 4, 5, 6, 7]
+VFORMS = [0, 0, 1, 2, 3, 4, 5, 6, 7]
+AFF = ["add", "radd", "sub", "rsub", "mul", "rmul", "neg", "copy", "div", "abs", "astype", "ccopy", "dcopy"]
 
 def unmasked(m): return [(y, x) for y, r in enumerate(m) for x, b in enumerate(r) if not b]
 def masked(m): return [(y, x) for y, r in enumerate(m) for x, b in enumerate(r) if b]
@@ -96,9 +115,9 @@ def gen_ops(rng, m, sn, two_planes, n_ops=None, nonfinite=True):
         else:
             if is_native:
                 y, x = rng.choice(mk) if (mk and rng.random() < 0.6) else rng.choice(um + mk)
-                ops.append(["set", 0, y, x, rng.choice([77, -8, 0, 1])])
+                ops.append(["set", 0, y, x, rng.choice([77, -8, 0, 1]), rng.random() < 0.25])
             else:
-                ops.append(["set", rng.randrange(len(um)), 0, 0, rng.choice([77, -8, 0, 1])])
+                ops.append(["set", rng.randrange(len(um)), 0, 0, rng.choice([77, -8, 0, 1]), rng.random() < 0.25])
     return ops
 
 def gen_mops(rng, m):
@@ -124,7 +143,137 @@ def gen_mops(rng, m):
     if not ops: ops.append(["copy"])
     return ops
 
+def gen_mops1(rng, r):
+    cur = list(r); n = len(r); ops = []
+    for _ in range(rng.choice([2, 3, 3, 4])):
+        c = rng.choice(["set"] * 6 + ["copy"] * 2 + ["new"])
+        if c == "set":
+            x = rng.randrange(n)
+            b = not cur[x] if rng.random() < 0.8 else cur[x]
+            if b and cur.count(False) == 1 and not cur[x]: b = False
+            cur[x] = b; ops.append(["set", x, b])
+        elif c == "copy": ops.append(["copy"])
+        else:
+            new = [rng.random() < 0.4 for _ in range(n)]; new[rng.randrange(n)] = False
+            cur = new; ops.append(["new", list(new)])
+    return ops
+
+def reshaped(m, rng):
+    """the same flat bit pattern under another shape (H x W -> W x H / 1 x HW / HW x 1 / another factorisation)"""
+    flat = [b for r in m for b in r]; n = len(flat); h = len(m)
+    shapes = [(a, n // a) for a in range(1, n + 1) if n % a == 0 and a != h]
+    if not shapes: return [list(r) for r in m]
+    a, b = rng.choice(shapes)
+    return [flat[y * b:(y + 1) * b] for y in range(a)]
+
+def shuffled(m, rng):
+    """a different mask of the same shape with the same number of unmasked pixels (when there is one)"""
+    flat = [b for r in m for b in r]; w = len(m[0])
+    for _ in range(8):
+        f2 = flat[:]; rng.shuffle(f2)
+        if f2 != flat: break
+    return [f2[y * w:(y + 1) * w] for y in range(len(m))]
+
+def rand_mask(rng, h, w, p=None):
+    p = rng.choice([0.1, 0.3, 0.5, 0.8]) if p is None else p
+    m = [[rng.random() < p for _ in range(w)] for _ in range(h)]
+    if all(all(r) for r in m): m[rng.randrange(h)][rng.randrange(w)] = False
+    return m
+
+def gen_phase3(tier, rng):
+    """pre-emptive hardening streams: sibling util functions, classmethod constructors, apply_mask, sequences of calls inside
+    one case, Mask1D histories, directed large masks (an index does not fit 8 bits)"""
+    big = tier == "thorough"
+    i = 0
+    # ---- sibling util functions: every mask with H*W <= 5 and every fourth mask with H*W = 6 [every mask with H*W <= 7]
+    for (h, w) in shapes_upto(7 if big else 6):
+        for m in all_masks(h, w):
+            i += 1
+            if big or h * w <= 5 or i % 4 == 0: yield {"op": "util2", "m": m, "k": i % 4}
+    for _ in range(300 if big else 25):
+        h, w = rng.randint(1, 9), rng.randint(1, 9)
+        yield {"op": "util2", "m": rand_mask(rng, h, w), "k": rng.randrange(4)}
+    # ---- several masks in a row inside one case: same shape + same count, same bits under another shape, then the first again
+    for (h, w) in shapes_upto(12 if big else 8):
+        if h * w < 2: continue
+        for j in range(8 if big else 3):
+            i += 1
+            m1 = rand_mask(rng, h, w, rng.choice([0.3, 0.5, 0.6]))
+            ms = [m1, shuffled(m1, rng), reshaped(m1, rng), [list(r) for r in m1]]
+            if j % 2: ms.insert(2, rand_mask(rng, h, w))
+            yield {"op": "utilseq", "ms": ms, "k": i % 4}
+            kind = ["array", "grid", "vector", "array"][i % 4]
+            items = []
+            for t, mm in enumerate(ms):
+                it = {"op": kind, "m": mm, "ni": bool((i + (t if j % 3 == 0 else 0)) & 1), "sn": bool((i >> 1) & 1), "k": (i + t) % 4,
+                      "mt": [0, 1, 0, 7][(i // 4) % 4], "vt": [0, 0, 1, 5][(i // 8) % 4]}
+                if kind == "array" and i % 8 == 3: it["cls"] = "kernel"
+                items.append(it)
+            yield {"op": "seq", "items": items}
+    for n in range(2, (10 if big else 7)):
+        for j in range(6 if big else 3):
+            i += 1
+            r1 = rand_mask(rng, 1, n, 0.5)[0]; r2 = shuffled([r1], rng)[0]
+            yield {"op": "seq", "items": [{"op": ["array1d", "grid1d"][i % 2], "r": r, "ni": bool(i & 2), "sn": bool(i & 4), "mt": (i // 8) % 8, "vt": 0}
+                                          for r in (r1, r2, rand_mask(rng, 1, n)[0], r1)]}
+    # ---- classmethod constructors (all-false mask): no_mask / full / ones / zeros
+    shp = [(h, w) for h in range(1, 4) for w in range(1, 4)] + [(1, 5), (5, 1), (2, 4), (4, 2)] + ([(3, 5), (5, 3), (1, 9), (7, 2)] if big else [])
+    for (h, w) in shp:
+        for cls in ("array", "kernel", "grid", "vector"):
+            for ni in (True, False):
+                i += 1
+                yield {"op": "nomask", "cls": cls, "h": h, "w": w, "ni": ni, "k": i % 4, "vt": [0, 1, 5, 4, 2][i % 5], "omit": bool(i % 3),
+                       "ps": [1.0, [0.5, 2.0]][i % 2], "org": [[0.0, 0.0], [0.3, -0.7]][(i // 2) % 2]}
+        for which in ("full", "ones", "zeros"):
+            i += 1
+            c = {"full": [3, -2, 0][i % 3], "ones": 1, "zeros": 0}[which]
+            yield {"op": "nomask", "cls": "full", "which": which, "c": c, "h": h, "w": w, "ni": True, "k": i % 2, "ps": [1.0, [0.5, 2.0]][i % 2]}
+            yield {"op": "nomask", "cls": "vfull", "which": which, "c": c, "h": h, "w": w, "ni": True, "ps": [[0.5, 2.0], 1.0][i % 2]}
+    for w in range(1, 7):
+        for cls in ("array1d", "grid1d"):
+            i += 1
+            yield {"op": "nomask", "cls": cls, "h": 1, "w": w, "ni": True, "k": i % 4, "vt": [0, 1, 5, 2][i % 4]}
+        for which in ("full", "ones", "zeros"):
+            yield {"op": "nomask", "cls": "array1d", "which": which, "c": 4, "h": 1, "w": w, "ni": True}
+    # ---- apply_mask: every pair of masks (>= 1 unmasked pixel each) with H*W <= 3, every pair of 2x2 masks [H*W <= 4 / 6]
+    def pairs():
+        for (h, w) in shapes_upto(6 if big else 4):
+            ms = [m for m in all_masks(h, w) if not all(all(r) for r in m)]
+            full = h * w <= (4 if big else 3) or (h, w) == (2, 2)
+            for a in ms:
+                for b in (ms if full else rng.sample(ms, 3)):
+                    yield a, b
+        for _ in range(800 if big else 120):
+            h, w = rng.randint(2, 7), rng.randint(2, 7)
+            yield rand_mask(rng, h, w), rand_mask(rng, h, w)
+    for a, b in pairs():
+        i += 1
+        yield {"op": "apply", "cls": ["array", "vector", "array", "kernel"][i % 4], "m": a, "m2": b, "ni": bool((i >> 2) & 1), "sn": bool((i >> 3) & 1),
+               "k": (i >> 4) % 4, "e": SCALES[(i >> 6) % 4], "nf": (i // 5) % 3 == 0, "mt": MFORMS[i % 9], "mt2": MFORMS[(i // 9) % 9], "pre": [0, 5, -3][i % 3]}
+    # ---- Mask1D histories: every mask of length <= 6 [9]
+    for n in range(1, (9 if big else 6)):
+        for bits in itertools.product([False, True], repeat=n):
+            if all(bits): continue
+            yield {"op": "maskhist1", "r": list(bits), "ops": gen_mops1(rng, list(bits))}
+    # ---- directed: a dimension / a flat index / a slim index beyond 255 and 256 (an index stored in 8 bits wraps), sparse and
+    #      dense, last pixel unmasked; 1-D as well
+    bigshapes = [(1, 262), (259, 1), (17, 16)] + ([(2, 135), (129, 2), (1, 1030), (260, 3), (33, 32)] if big else [])
+    for (h, w) in bigshapes:
+        for dens in ((0.97, 0.02) if big else (0.9,)):
+            i += 1
+            m = [[rng.random() < dens for _ in range(w)] for _ in range(h)]
+            m[h - 1][w - 1] = False; m[0][0] = bool(i & 1); m[h // 2][w // 2] = False
+            yield {"op": "util", "m": m, "k": i % 4}
+            yield {"op": ["array", "grid", "vector"][i % 3], "m": m, "ni": bool(i & 2), "sn": bool(i & 4), "k": 0, "mt": 0, "vt": 0}
+            if h == 1:
+                yield {"op": "array1d", "r": m[0], "ni": bool(i & 1), "sn": bool(i & 2), "mt": 0, "vt": 0}
+                yield {"op": "grid1d", "r": m[0], "ni": not bool(i & 1), "sn": bool(i & 2), "mt": 0, "vt": 0}
+
 def gen_inputs(tier, rng):
+    yield from gen_base(tier, rng)
+    yield from gen_phase3(tier, __import__("random").Random(rng.random()))
+
+def gen_base(tier, rng):
     big = tier == "thorough"
     nu, nc, n1, nh = (14, 12, 12, 10) if big else (10, 8, 8, 8)
     i = 0
@@ -140,6 +289,13 @@ def gen_inputs(tier, rng):
                    "mt": (i // 3) % 4, "vt": (i // 5) % 4, "nf": (i // 7) % 3 == 0}
             if big or i % 5 == 0:
                 yield {"op": "array", "m": m, "ni": not bool(i & 1), "sn": not bool(i & 2), "k": 1}
+            if i % 3 == 0:
+                # phase 3: further entry forms (subclass instances, masks built from masks, anisotropic pixel scales + origin,
+                # non-contiguous / float32 / bool arrays), Kernel2D, the vector field's grid in its own form
+                j = i // 3
+                yield {"op": KINDS[j % 3], "m": m, "ni": bool(j & 1), "sn": bool(j & 2), "k": [5, 0, 1, 5, 2, 3][j % 6], "e": SCALES[(j >> 3) % 4],
+                       "mt": 4 + (j // 3) % 4, "vt": 4 + (j // 5) % 4, "nf": (j // 7) % 3 == 0, "gn": bool((j // 3) & 1), "gt": (j // 6) % 4,
+                       "cls": "kernel" if j % 2 else "array"}
     for n in range(1, n1 + 1):
         for bits in itertools.product([False, True], repeat=n):
             if all(bits): continue
@@ -147,10 +303,14 @@ def gen_inputs(tier, rng):
             yield {"op": "array1d" if i % 3 else "grid1d", "r": list(bits), "ni": bool(i & 1), "sn": bool(i & 2), "e": SCALES[(i >> 2) % 4],
                    "mt": (i // 3) % 4, "vt": (i // 5) % 4, "nf": (i // 7) % 3 == 0}
             yield {"op": "array1d", "r": list(bits), "ni": not bool(i & 1), "sn": bool(i & 4)}
+            if i % 3 == 0:
+                j = i // 3
+                yield {"op": "array1d" if j % 2 else "grid1d", "r": list(bits), "ni": bool(j & 1), "sn": bool(j & 2), "k": [5, 0][j % 2],
+                       "e": SCALES[(j >> 3) % 4], "mt": 4 + (j // 3) % 4, "vt": 4 + (j // 5) % 4, "nf": (j // 7) % 3 == 0}
     # ---- histories (phase 2): quick = every mask with H*W <= 6 gets an object history AND a mask history, of the masks with
     #      H*W in {7, 8} one third gets an object history and one third a mask history; thorough = two of each for every
     #      mask with H*W <= 10
-    hk = ["array", "grid", "array", "vector"]
+    hk = ["array", "grid", "array", "vector", "kernel"]
     for (h, w) in shapes_upto(nh):
         for m in all_masks(h, w):
             if all(all(r) for r in m): continue
@@ -160,16 +320,16 @@ def gen_inputs(tier, rng):
                 if both or i % 3 == 0:
                     cls = rng.choice(hk); sn = rng.random() < 0.6
                     yield {"op": "hist", "cls": cls, "m": m, "ni": rng.random() < 0.5, "sn": sn, "k": rng.randrange(4), "e": rng.choice(SCALES),
-                           "mt": rng.choice(FORMS), "vt": rng.choice(FORMS), "ops": gen_ops(rng, m, sn, cls != "array")}
+                           "mt": rng.choice(MFORMS), "vt": rng.choice(VFORMS), "ops": gen_ops(rng, m, sn, cls in ("grid", "vector"))}
                 if both or i % 3 == 1:
-                    yield {"op": "maskhist", "m": m, "ops": gen_mops(rng, m)}
+                    yield {"op": "maskhist", "m": m, "ops": gen_mops(rng, m), "all_classes": False}
     for n in range(1, nh + 1):
         for bits in itertools.product([False, True], repeat=n):
             if all(bits): continue
             i += 1
             sn = rng.random() < 0.6; c1 = "array1d" if i % 3 else "grid1d"
             yield {"op": "hist", "cls": c1, "m": [list(bits)], "ni": rng.random() < 0.5, "sn": sn,
-                   "k": rng.randrange(4), "e": rng.choice(SCALES), "mt": rng.choice(FORMS), "vt": rng.choice(FORMS),
+                   "k": rng.randrange(4), "e": rng.choice(SCALES), "mt": rng.choice(MFORMS), "vt": rng.choice(VFORMS),
                    "ops": gen_ops(rng, [list(bits)], sn, False)}
     for _ in range(1500 if big else 120):
         h, w = rng.randint(3, 12), rng.randint(3, 12)
@@ -178,12 +338,12 @@ def gen_inputs(tier, rng):
         if all(all(r) for r in m): m[rng.randrange(h)][rng.randrange(w)] = False
         yield {"op": "util", "m": m, "k": 1}
         yield {"op": rng.choice(KINDS), "m": m, "ni": rng.random() < 0.5, "sn": rng.random() < 0.5, "k": rng.randint(0, 3),
-               "e": rng.choice(SCALES), "mt": rng.choice(FORMS), "vt": rng.choice(FORMS)}
+               "e": rng.choice(SCALES), "mt": rng.choice(MFORMS), "vt": rng.choice(VFORMS)}
         if not big and _ % 3: continue
         sn = rng.random() < 0.6; cls = rng.choice(hk)
         yield {"op": "hist", "cls": cls, "m": m, "ni": rng.random() < 0.5, "sn": sn, "k": rng.randint(0, 3), "e": rng.choice(SCALES),
-               "mt": rng.choice(FORMS), "vt": rng.choice(FORMS), "ops": gen_ops(rng, m, sn, cls != "array")}
-        yield {"op": "maskhist", "m": m, "ops": gen_mops(rng, m)}
+               "mt": rng.choice(MFORMS), "vt": rng.choice(VFORMS), "ops": gen_ops(rng, m, sn, cls in ("grid", "vector"))}
+        yield {"op": "maskhist", "m": m, "ops": gen_mops(rng, m), "all_classes": False}
 
 def cmask(m): return clist([clist([cbool(b) for b in r]) for r in m])
 def cgrid(g): return clist([clist([cz(v) for v in r]) for r in g])
@@ -214,20 +374,69 @@ class Checks:
         return r
 
 
+_SUB = {}
+def subclass(aa, name):
+    """a user-defined subclass of an accepted class (dispatch has to go through isinstance / duck typing, not `type(x) is C`)"""
+    if name not in _SUB: _SUB[name] = type("Sub" + name, (getattr(aa, name),), {})
+    return _SUB[name]
+
+def strided(a):
+    """the same contents in a non-contiguous memory layout: 1-D = every second entry of a longer buffer, otherwise a
+    negative-stride view of a Fortran-ordered copy (anything that reads the raw buffer / ravels in memory order differs)"""
+    a = np.asarray(a)
+    if a.ndim == 1:
+        big = np.zeros(2 * a.shape[0] + 1, dtype=a.dtype); big[1::2] = a
+        return big[1::2]
+    if a.ndim >= 2 and a.shape[0] > 1 and a.shape[1] > 1 and a.shape[0] % 2: return np.asfortranarray(a)      # Fortran-contiguous
+    return np.asfortranarray(a[::-1])[::-1]
+
 def make_mask(aa, ma, mt, one_d=False):
-    """the same mask through different entry forms: ndarray / python list / invert=True of the complement / 0-1 integers"""
+    """the same mask through different entry forms: ndarray / python list / invert=True of the complement / 0-1 integers /
+    an instance of a user-defined subclass / built from an existing mask object / anisotropic pixel scales and a shifted
+    origin (nothing in C01 may depend on them) / a non-contiguous array"""
     M = aa.Mask1D if one_d else aa.Mask2D
     if mt == 1: return M(mask=ma.tolist(), pixel_scales=1.0)
     if mt == 2: return M(mask=np.invert(ma), pixel_scales=1.0, invert=True)
     if mt == 3: return M(mask=ma.astype(int), pixel_scales=1.0)
+    if mt == 4: return subclass(aa, "Mask1D" if one_d else "Mask2D")(mask=ma, pixel_scales=1.0)
+    if mt == 5: return M(mask=(M if ma.sum() % 2 else subclass(aa, "Mask1D" if one_d else "Mask2D"))(mask=ma, pixel_scales=2.0), pixel_scales=1.0)
+    if mt == 6: return M(mask=ma, pixel_scales=0.25, origin=(1.5,)) if one_d else M(mask=ma, pixel_scales=(0.5, 2.0), origin=(0.3, -0.7))
+    if mt == 7: return M(mask=strided(ma), pixel_scales=1.0)
     return M(mask=ma, pixel_scales=1.0)
 
-def give(values, vt, exact_scale, build_other):
+def snap(x):
+    """snapshot of an argument handed to the implementation (list / ndarray / structure), compared after the call"""
+    if isinstance(x, list): return ("list", copy.deepcopy(x))
+    if isinstance(x, np.ndarray): return ("ndarray:" + x.dtype.str, x.copy())
+    if hasattr(x, "_array"):
+        try: extra = repr((x.pixel_scales, x.origin))
+        except Exception: extra = None
+        return (type(x).__name__, np.array(x._array).copy(), extra)
+    return ("other", repr(x))
+
+def unchanged(chk, what, x, before):
+    now = snap(x)
+    ok = now[0] == before[0]
+    if ok and now[0] != "other":
+        a, b = np.asarray(now[1]), np.asarray(before[1])
+        ok = a.shape == b.shape and a.dtype == b.dtype and np.array_equal(a, b, equal_nan=a.dtype.kind in "fc")
+        if ok and len(now) > 2: ok = now[2] == before[2]
+    elif ok: ok = now[1] == before[1]
+    if not ok: chk.bad.append(what + " was modified by the call")
+
+def give(values, vt, exact_scale, build_other, build_sub=None):
     """the same values through different entry forms: float ndarray / python list / integer ndarray / an existing
-    structure of the other storage mode on the same mask"""
+    structure of the other storage mode on the same mask / float32 ndarray (when exact) / non-contiguous ndarray /
+    an instance of a user-defined subclass of the class / bool ndarray (when the values are 0 and 1)"""
     if vt == 1: return values.tolist()
     if vt == 2 and exact_scale: return values.astype(int)
     if vt == 3: return build_other(values)
+    if vt == 4:
+        f32 = values.astype(np.float32)
+        if np.array_equal(f32.astype(float), values, equal_nan=True): return f32
+    if vt == 5: return strided(values)
+    if vt == 6 and build_sub is not None: return build_sub(values)
+    if vt == 7 and exact_scale and np.all((values == 0) | (values == 1)): return values.astype(bool)
     return values
 
 def poison(values, ma):
@@ -255,9 +464,11 @@ def run_hist(aa, inp):
     mt, vt = inp.get("mt", 0), inp.get("vt", 0)
     m1 = ma[0].copy() if one_d else None
     mask = make_mask(aa, m1 if one_d else ma, mt, one_d)
-    C = {"array": aa.Array2D, "grid": aa.Grid2D, "vector": aa.VectorYX2D, "array1d": aa.Array1D, "grid1d": aa.Grid1D}[cls]
+    cname = {"array": "Array2D", "grid": "Grid2D", "vector": "VectorYX2D", "array1d": "Array1D", "grid1d": "Grid1D", "kernel": "Kernel2D"}[cls]
+    C = getattr(aa, cname)
     vgrid = None
     if cls == "vector": vgrid = aa.Grid2D.from_mask(mask=mask)
+    mask_before = snap(mask)
 
     def as_values(ni, nat_planes, slim_planes):
         """the array handed to the implementation: native [h, w(, 2)] or slim [n(, 2)], scaled"""
@@ -265,11 +476,12 @@ def run_hist(aa, inp):
         a = [np.array(p, dtype=float) * sc for p in src]
         if one_d: return a[0][0] if ni else a[0]
         return np.stack(a, axis=-1) if planes == 2 else a[0]
-    def build(values, sn, native_grid=None):
+    def build(values, sn, native_grid=None, K=None):
+        K = K or C
         if cls == "vector":
             if native_grid is None: native_grid = np.ndim(values) == 3
-            return C(values=values, grid=vgrid.native if native_grid else vgrid, mask=mask, store_native=sn)
-        return C(values=values, mask=mask, store_native=sn)
+            return K(values=values, grid=vgrid.native if native_grid else vgrid, mask=mask, store_native=sn)
+        return K(values=values, mask=mask, store_native=sn)
     def read(obj, stored=None):
         s1, n1 = np.array(obj.slim), np.array(obj.native)
         s2, n2 = np.array(obj.slim), np.array(obj.native)           # the same object read twice
@@ -290,7 +502,10 @@ def run_hist(aa, inp):
     ni, sn = inp["ni"], inp["sn"]
     values = as_values(ni, nat0, slim0); values0 = values.copy()
     # the caller's array itself, not a copy (or a list / an integer array / a structure of the other storage mode)
-    obj = build(give(values, vt, inp.get("e", 0) == 0, lambda v: build(v, not sn)), sn, native_grid=ni)
+    given = give(values, vt, inp.get("e", 0) == 0, lambda v: build(v, not sn), lambda v: build(v, sn, K=subclass(aa, cname)))
+    given_before = snap(given)
+    obj = build(given, sn, native_grid=ni)
+    unchanged(chk, "the values argument (" + given_before[0] + ")", given, given_before)
     is_native = sn
     outs = [read(obj, stored=sn)]
     zops = [[] for _ in range(planes)]
@@ -312,10 +527,17 @@ def run_hist(aa, inp):
             elif kind == "mul": new = obj * float(c); ab = [(c, 0)] * planes
             elif kind == "rmul": new = float(c) * obj; ab = [(c, 0)] * planes
             elif kind == "neg": new = -obj; ab = [(-1, 0)] * planes
+            elif kind == "div":
+                a = c if c in (2, -1, 1) else 4
+                new = obj / (1.0 / a); ab = [(a, 0)] * planes
+            elif kind == "abs": new = abs(obj); ab = None
+            elif kind == "astype": new = obj.astype(float); ab = [(1, 0)] * planes
+            elif kind == "ccopy": new = copy.copy(obj); ab = [(1, 0)] * planes
+            elif kind == "dcopy": new = copy.deepcopy(obj); ab = [(1, 0)] * planes
             else: new = obj.copy(); ab = [(1, 0)] * planes
             if type(new) is not type(obj): raise AssertionError(f"{kind} returned a {type(new).__name__}")
             obj = new
-            for q in range(planes): zops[q].append(f"(ZAff {cz(ab[q][0])} {cz(ab[q][1])})")
+            for q in range(planes): zops[q].append("ZAbs" if ab is None else f"(ZAff {cz(ab[q][0])} {cz(ab[q][1])})")
         elif op[0] == "nf" and op[1] == "divself":
             # arr / arr: 1 at every unmasked pixel, 0/0 = NaN at the (zero) masked pixels of a natively stored array;
             # only when no unmasked value is zero, else a plain copy
@@ -365,14 +587,21 @@ def run_hist(aa, inp):
                 is_native = op[3]
                 for q in range(planes): zops[q].append(f"(ZBuild {cbool(rni)} {cgrid(rn[q])} {cvec(rs[q])} {cbool(op[3])})")
         elif op[0] == "set":
-            _, ks, y, x, v = op
+            ks, y, x, v = op[1:5]
             vs = [v, v + 3][:planes]
             val = float(v) * sc if planes == 1 else [float(u) * sc for u in vs]
             # everything read so far from other objects must not be re-read after an in-place edit (aliasing is not C01's business)
             older = []
             if not edited: caller_arrays()
             edited = True
-            if is_native:
+            if planes == 1 and len(op) > 5 and op[5]:
+                # obj[key] = v with a boolean key array holding one True (AbstractNDArray.__setitem__ goes through where(...))
+                key = np.zeros(np.asarray(obj.array).shape, dtype=bool)
+                if not is_native: key[ks] = True
+                elif one_d: key[x] = True
+                else: key[y, x] = True
+                obj[key] = val
+            elif is_native:
                 if one_d: obj[x] = val
                 else: obj[y, x] = val
             else: obj[ks] = val
@@ -388,6 +617,7 @@ def run_hist(aa, inp):
     if not edited: caller_arrays()
     chk.same("the caller's mask array was modified", ma, ma0)
     chk.same("the Mask object was modified", np.array(mask), ma0[0] if one_d else ma0)
+    unchanged(chk, "the Mask object", mask, mask_before)
     if one_d: chk.same("the caller's mask array was modified", m1, ma0[0])
     cases = []
     for q in range(planes):
@@ -419,7 +649,33 @@ def run_maskhist(aa, inp):
         a2 = aa.Array2D(values=np.arange(1000.0, 1000.0 + cnt), mask=mk)
         s1, n2 = np.array(a1.slim), np.array(a2.native)
         exact(s1); exact(n2)
+        # the other classes (and the other storage mode) built on the SAME, possibly edited, mask object: one per reading, rotating
+        nread[0] += 1
+        if nread[0] % 2 == 0 and not inp.get("all_classes"):             # every other reading (quick tier), every reading (thorough)
+            if mk.pixels_in_mask != cnt: chk.bad.append("pixels_in_mask of the edited Mask2D")
+            return ([[int(a), int(b)] for a, b in nfs], ints(u), ints(k_), ints(s1), ints2(n2))
+        j = len(extra); ni = bool((j // 4) % 2); sn = bool((j // 8) % 2) or j % 4 == 0
+        sl = slim_of(native, cur); sx = [7 - v for v in sl]; nx = [[7 - v for v in r] for r in native]
+        if j % 4 in (0, 3):
+            C = aa.Array2D if j % 4 == 0 else aa.Kernel2D
+            o = C(values=np.array(native if ni else sl, dtype=float), mask=mk, store_native=sn)
+            os_, on_ = np.array(o.slim), np.array(o.native)
+            if os_.shape != (cnt,) or on_.shape != (h, w): raise AssertionError(f"shape of forms {os_.shape} {on_.shape}")
+            exact(os_); exact(on_)
+            extra.append(f"(KArray {cmask(cur)} {cbool(ni)} {cbool(sn)} {cgrid(native)} {cvec(sl)} {cvec(ints(os_))} {cgrid(ints2(on_))})")
+        else:
+            v = (np.stack([nv, np.array(nx, dtype=float)], axis=-1) if ni
+                 else np.stack([np.array(sl, dtype=float), np.array(sx, dtype=float)], axis=-1).reshape(-1, 2))
+            if j % 4 == 1: o = aa.Grid2D(values=v, mask=mk, store_native=sn)
+            else: o = aa.VectorYX2D(values=v, grid=v.copy(), mask=mk, store_native=sn)
+            os_, on_ = np.array(o.slim), np.array(o.native)
+            if os_.shape != (cnt, 2) or on_.shape != (h, w, 2): raise AssertionError(f"shape of forms {os_.shape} {on_.shape}")
+            exact(os_); exact(on_)
+            extra.append(f"(KGrid {cmask(cur)} {cbool(ni)} {cbool(sn)} {cgrid(native)} {cgrid(nx)} {cvec(sl)} {cvec(sx)} "
+                         f"{cvec(ints(os_[:, 0]))} {cvec(ints(os_[:, 1]))} {cgrid(ints2(on_[:, :, 0]))} {cgrid(ints2(on_[:, :, 1]))})")
+        if mk.pixels_in_mask != cnt: chk.bad.append("pixels_in_mask of the edited Mask2D")
         return ([[int(a), int(b)] for a, b in nfs], ints(u), ints(k_), ints(s1), ints2(n2))
+    extra = []; nread = [0]
     outs = [read(mask)]
     left = []                                                        # masks left behind by copy / new / invert: must keep their state
     cops = []
@@ -451,36 +707,344 @@ def run_maskhist(aa, inp):
         return ("(" + clist([ctup([cnat(a), cnat(b)]) for a, b in o[0]]) + ", " + clist([cnat(x) for x in o[1]]) + ", "
                 + clist([cnat(x) for x in o[2]]) + ", " + cvec(o[3]) + ", " + cgrid(o[4]) + ")")
     coq = f"(KMaskHist {cmask(m)} {cgrid(native)} {clist(cops)} {clist([cobs(o) for o in outs])})"
-    return chk.result({"coq": coq, "out": outs, "kind": "maskhist", "nontrivial": True})
+    return chk.result({"coq": coq, "extra_coq": extra, "out": outs, "kind": "maskhist", "nontrivial": True})
+
+# ----------------------------------------------------------------------------- util level
+def util_cases(ma, an, asl, m, native, slim, chk):
+    """the five anchored util functions on (mask array, native values, slim values); returns (out, coq cases)"""
+    from autoarray.structures.arrays import array_2d_util
+    from autoarray.mask import mask_2d_util
+    ma0, an0, asl0 = ma.copy(), an.copy(), asl.copy()
+    s1 = array_2d_util.array_2d_slim_from(array_2d_native=an, mask_2d=ma)
+    n1 = array_2d_util.array_2d_native_from(array_2d_slim=asl, mask_2d=ma)
+    idx = mask_2d_util.native_index_for_slim_index_2d_from(mask_2d=ma)
+    um = mask_2d_util.mask_slim_indexes_from(mask_2d=ma, return_masked_indexes=False)
+    mk = mask_2d_util.mask_slim_indexes_from(mask_2d=ma, return_masked_indexes=True)
+    chk.same("a util function modified its array argument", an, an0)
+    chk.same("a util function modified its array argument", asl, asl0)
+    chk.same("a util function modified its mask argument", ma, ma0)
+    exact(s1); exact(n1)
+    if np.asarray(n1).shape != ma.shape: raise AssertionError(f"array_2d_native_from returned shape {np.asarray(n1).shape}")
+    out = [ints(s1), ints2(n1), [[int(a), int(b)] for a, b in np.asarray(idx).reshape(-1, 2)], ints(um), ints(mk)]
+    cm = cmask(m)
+    cases = [f"(KSlimFrom {cm} {cgrid(native)} {cvec(out[0])})",
+             f"(KNativeFrom {cm} {cvec(slim)} {cgrid(out[1])})",
+             "(KNativeForSlim " + cm + " " + clist([ctup([cnat(a), cnat(b)]) for a, b in out[2]]) + ")",
+             "(KMaskIdx " + cm + " false " + clist([cnat(x) for x in out[3]]) + ")",
+             "(KMaskIdx " + cm + " true " + clist([cnat(x) for x in out[4]]) + ")"]
+    return out, cases
+
+def slim_of(native, m): return [native[y][x] + 1000 for y in range(len(m)) for x in range(len(m[0])) if not m[y][x]]
+
+def run_utilseq(aa, inp):
+    """the util functions called for several masks in a row within ONE case (a replay reproduces a result remembered from
+    an earlier call); masks of the same shape re-use the SAME ndarray objects, overwritten in place"""
+    chk = Checks(); outs = []; cases = []
+    ma = an = asl = None
+    for j, m in enumerate(inp["ms"]):
+        h, w = len(m), len(m[0])
+        native = vals(h, w, (inp.get("k", 0) + j) % 4); slim = slim_of(native, m)
+        if ma is not None and ma.shape == (h, w): ma[...] = np.array(m, dtype=bool); an[...] = np.array(native, dtype=float)
+        else: ma = np.array(m, dtype=bool); an = np.array(native, dtype=float)
+        if asl is not None and asl.shape == (len(slim),): asl[...] = np.array(slim, dtype=float)
+        else: asl = np.array(slim, dtype=float)
+        o, c = util_cases(ma, an, asl, m, native, slim, chk)
+        outs.append(o); cases += c
+    return chk.result({"coq": cases[0], "extra_coq": cases[1:], "out": outs, "kind": "utilseq", "nontrivial": True})
+
+def run_util2(aa, inp):
+    """sibling util functions of the anchored ones: the grid, complex, via-indexes, convert_*_to_slim / _to_native and 1-D
+    variants; every result is judged by the same model clauses (one plane / one row at a time)"""
+    from autoarray.structures.arrays import array_2d_util, array_1d_util
+    from autoarray.structures.grids import grid_2d_util, grid_1d_util
+    from autoarray.mask import mask_2d_util, mask_1d_util
+    m = inp["m"]; h, w = len(m), len(m[0]); k = inp.get("k", 0)
+    ma = np.array(m, dtype=bool); ma0 = ma.copy(); cm = cmask(m); chk = Checks()
+    n0 = vals(h, w, k); n1 = [[7 - v for v in r] for r in n0]
+    s0 = slim_of(n0, m); s1 = [7 - v for v in s0]
+    cnt = len(s0)
+    a0, a1 = np.array(n0, dtype=float), np.array(n1, dtype=float)
+    b0, b1 = np.array(s0, dtype=float), np.array(s1, dtype=float)
+    gn = np.stack([a0, a1], axis=-1); gs = np.stack([b0, b1], axis=-1).reshape(-1, 2)
+    cases = []; outs = []
+    def slim_case(nat, got, what):
+        got = np.asarray(got)
+        if got.shape != (cnt,): raise AssertionError(f"{what}: shape {got.shape}")
+        exact(got); outs.append(ints(got)); cases.append(f"(KSlimFrom {cm} {cgrid(nat)} {cvec(ints(got))})")
+    def native_case(sl, got, what):
+        got = np.asarray(got)
+        if got.shape != (h, w): raise AssertionError(f"{what}: shape {got.shape}")
+        exact(got); outs.append(ints2(got)); cases.append(f"(KNativeFrom {cm} {cvec(sl)} {cgrid(ints2(got))})")
+    # grids: two planes
+    g1 = grid_2d_util.grid_2d_slim_from(grid_2d_native=gn, mask=ma)
+    if np.asarray(g1).shape != (cnt, 2): raise AssertionError(f"grid_2d_slim_from: shape {np.asarray(g1).shape}")
+    slim_case(n0, g1[:, 0], "grid_2d_slim_from"); slim_case(n1, g1[:, 1], "grid_2d_slim_from")
+    g2 = grid_2d_util.grid_2d_native_from(grid_2d_slim=gs, mask_2d=ma)
+    if np.asarray(g2).shape != (h, w, 2): raise AssertionError(f"grid_2d_native_from: shape {np.asarray(g2).shape}")
+    native_case(s0, g2[:, :, 0], "grid_2d_native_from"); native_case(s1, g2[:, :, 1], "grid_2d_native_from")
+    g3 = grid_2d_util.convert_grid_2d_to_slim(grid_2d=gn, mask_2d=ma)
+    slim_case(n0, g3[:, 0], "convert_grid_2d_to_slim"); slim_case(n1, g3[:, 1], "convert_grid_2d_to_slim")
+    g4 = grid_2d_util.convert_grid_2d_to_native(grid_2d=gs, mask_2d=ma)
+    native_case(s0, g4[:, :, 0], "convert_grid_2d_to_native"); native_case(s1, g4[:, :, 1], "convert_grid_2d_to_native")
+    chk.same("convert_grid_2d_to_slim of a slim grid", grid_2d_util.convert_grid_2d_to_slim(grid_2d=gs, mask_2d=ma), gs)
+    chk.same("convert_grid_2d_to_native of a native grid", grid_2d_util.convert_grid_2d_to_native(grid_2d=gn, mask_2d=ma), gn)
+    # complex: real and imaginary parts are gathered / scattered alike
+    z1 = array_2d_util.array_2d_slim_complex_from(array_2d_native=a0 + 1j * a1, mask=ma)
+    if not np.iscomplexobj(z1): raise AssertionError("array_2d_slim_complex_from returned a real array")
+    slim_case(n0, np.real(z1), "array_2d_slim_complex_from"); slim_case(n1, np.imag(z1), "array_2d_slim_complex_from")
+    idx = mask_2d_util.native_index_for_slim_index_2d_from(mask_2d=ma).astype("int")
+    z2 = array_2d_util.array_2d_native_complex_via_indexes_from(array_2d_slim=b0 + 1j * b1, shape_native=(h, w), native_index_for_slim_index_2d=idx)
+    native_case(s0, np.real(z2), "array_2d_native_complex_via_indexes_from"); native_case(s1, np.imag(z2), "array_2d_native_complex_via_indexes_from")
+    native_case(s0, array_2d_util.array_2d_via_indexes_from(array_2d_slim=b0, shape=(h, w), native_index_for_slim_index_2d=idx), "array_2d_via_indexes_from")
+    # convert_array_2d_to_slim / _to_native
+    slim_case(n0, array_2d_util.convert_array_2d_to_slim(array_2d=a0, mask_2d=ma), "convert_array_2d_to_slim")
+    chk.same("convert_array_2d_to_slim of a slim array", array_2d_util.convert_array_2d_to_slim(array_2d=b0, mask_2d=ma), b0)
+    mask = aa.Mask2D(mask=ma, pixel_scales=(0.5, 2.0), origin=(0.3, -0.7))
+    native_case(s0, array_2d_util.convert_array_2d_to_native(array_2d=b0, mask_2d=mask), "convert_array_2d_to_native")
+    c2 = np.asarray(array_2d_util.convert_array_2d_to_native(array_2d=a1, mask_2d=mask))
+    if c2.shape != (h, w): raise AssertionError(f"convert_array_2d_to_native: shape {c2.shape}")
+    exact(c2)
+    cases.append(f"(KArray {cm} true true {cgrid(n1)} {cvec([])} {cvec(ints(c2[~ma0]))} {cgrid(ints2(c2))})")
+    # the anchored functions on Fortran-ordered / negative-stride arrays (the classes copy their input into C order first, the
+    # util functions are public on their own)
+    for lay in (np.asfortranarray, lambda a: np.asfortranarray(a[::-1])[::-1]):
+        slim_case(n1, array_2d_util.array_2d_slim_from(array_2d_native=lay(a1), mask_2d=lay(ma)), "array_2d_slim_from (memory layout)")
+        native_case(s1, array_2d_util.array_2d_native_from(array_2d_slim=strided(b1), mask_2d=lay(ma)), "array_2d_native_from (memory layout)")
+        i2 = np.asarray(mask_2d_util.native_index_for_slim_index_2d_from(mask_2d=lay(ma))).reshape(-1, 2)
+        cases.append("(KNativeForSlim " + cm + " " + clist([ctup([cnat(int(a)), cnat(int(b))]) for a, b in i2]) + ")")
+        for flag in (False, True):
+            t = mask_2d_util.mask_slim_indexes_from(mask_2d=lay(ma), return_masked_indexes=flag)
+            cases.append("(KMaskIdx " + cm + " " + cbool(flag) + " " + clist([cnat(x) for x in ints(t)]) + ")")
+    # the mask's own counters, used by every size check
+    if mask.pixels_in_mask != cnt or mask.shape_native != (h, w) or mask_2d_util.total_pixels_2d_from(mask_2d=ma) != cnt:
+        chk.bad.append("pixels_in_mask / shape_native / total_pixels_2d_from")
+    if h == 1:
+        r = ma[0].copy(); r0 = r.copy()
+        slim_case(n0, array_1d_util.array_1d_slim_from(array_1d_native=a0[0], mask_1d=r), "array_1d_slim_from")
+        t = np.asarray(array_1d_util.array_1d_native_from(array_1d_slim=b0, mask_1d=r))
+        if t.shape != (w,): raise AssertionError(f"array_1d_native_from: shape {t.shape}")
+        native_case(s0, t[None, :], "array_1d_native_from")
+        i1 = mask_1d_util.native_index_for_slim_index_1d_from(mask_1d=r).astype("int")
+        t = np.asarray(array_1d_util.array_1d_via_indexes_1d_from(array_1d_slim=b1, shape=w, native_index_for_slim_index_1d=i1))
+        native_case(s1, t[None, :], "array_1d_via_indexes_1d_from")
+        slim_case(n1, grid_1d_util.grid_1d_slim_from(grid_1d_native=a1[0], mask_1d=r), "grid_1d_slim_from")
+        t = np.asarray(grid_1d_util.grid_1d_native_from(grid_1d_slim=b1, mask_1d=r))
+        native_case(s1, t[None, :], "grid_1d_native_from")
+        if mask_1d_util.total_pixels_1d_from(mask_1d=r) != cnt: chk.bad.append("total_pixels_1d_from")
+        chk.same("a 1-D util function modified its mask argument", r, r0)
+    chk.same("a util function modified its mask argument", ma, ma0)
+    chk.same("a util function modified its array argument", a0, np.array(n0, dtype=float))
+    chk.same("a util function modified its array argument", a1, np.array(n1, dtype=float))
+    chk.same("a util function modified its array argument", b0, np.array(s0, dtype=float))
+    chk.same("a util function modified its array argument", gn, np.stack([np.array(n0, dtype=float), np.array(n1, dtype=float)], axis=-1))
+    chk.same("a util function modified its array argument", gs, np.stack([np.array(s0, dtype=float), np.array(s1, dtype=float)], axis=-1).reshape(-1, 2))
+    return chk.result({"coq": cases[0], "extra_coq": cases[1:], "out": outs, "kind": "util2", "nontrivial": bool(ma.any() and not ma.all())})
+
+# ----------------------------------------------------------------------------- classmethod constructors (all-false mask)
+def run_nomask(aa, inp):
+    cls = inp["cls"]; h, w = inp["h"], inp["w"]; ni = inp["ni"]; k = inp.get("k", 0); vt = inp.get("vt", 0)
+    chk = Checks()
+    ps = inp.get("ps", 1.0); ps = tuple(ps) if isinstance(ps, list) else ps
+    org = tuple(inp.get("org", [0.0, 0.0]))
+    m = [[False] * w for _ in range(h)]; cm = cmask(m)
+    n0 = vals(h, w, k); n1 = [[7 - v for v in r] for r in n0]
+    s0 = slim_of(n0, m); s1 = [7 - v for v in s0]
+    def planes2(a, b): return np.stack([np.array(a, dtype=float), np.array(b, dtype=float)], axis=-1)
+    def forms(values): return give(values, vt, True, lambda v: v)
+    if cls in ("array", "kernel", "full"):
+        if cls == "full":
+            c = float(inp.get("c", 3)); C = [aa.Array2D, aa.Kernel2D][k % 2]
+            n0 = [[int(c)] * w for _ in range(h)]; s0 = [int(c)] * (h * w); ni = True
+            which = inp.get("which", "full")
+            if which == "full": obj = C.full(fill_value=c, shape_native=(h, w), pixel_scales=ps, origin=org)
+            elif which == "ones": obj = C.ones(shape_native=(h, w), pixel_scales=ps, origin=org)
+            else: obj = C.zeros(shape_native=(h, w), pixel_scales=ps, origin=org)
+        else:
+            C = aa.Array2D if cls == "array" else aa.Kernel2D
+            values = forms(np.array(n0 if ni else s0, dtype=float)); before = snap(values)
+            obj = C.no_mask(values=values, shape_native=None if (ni and inp.get("omit", True)) else (h, w), pixel_scales=ps, origin=org)
+            unchanged(chk, "the values argument", values, before)
+        os_, on_ = np.array(obj.slim), np.array(obj.native)
+        if os_.shape != (h * w,) or on_.shape != (h, w): raise AssertionError(f"shape of forms {os_.shape} {on_.shape}")
+        exact(os_); exact(on_)
+        out = [ints(os_), ints2(on_)]
+        coq = [f"(KArray {cm} {cbool(ni)} false {cgrid(n0)} {cvec(s0)} {cvec(out[0])} {cgrid(out[1])})"]
+    elif cls in ("grid", "vector", "vfull"):
+        if cls == "vfull":
+            c = float(inp.get("c", 3)); n0 = n1 = [[int(c)] * w for _ in range(h)]; s0 = s1 = [int(c)] * (h * w); ni = True
+            which = inp.get("which", "full")
+            if which == "full": obj = aa.VectorYX2D.full(fill_value=c, shape_native=(h, w), pixel_scales=ps, origin=org)
+            elif which == "ones": obj = aa.VectorYX2D.ones(shape_native=(h, w), pixel_scales=ps, origin=org)
+            else: obj = aa.VectorYX2D.zeros(shape_native=(h, w), pixel_scales=ps, origin=org)
+        else:
+            values = forms(planes2(n0, n1) if ni else planes2(s0, s1).reshape(-1, 2)); before = snap(values)
+            C = aa.Grid2D if cls == "grid" else aa.VectorYX2D
+            obj = C.no_mask(values=values, shape_native=None if (ni and inp.get("omit", True)) else (h, w), pixel_scales=ps, origin=org)
+            unchanged(chk, "the values argument", values, before)
+        os_, on_ = np.array(obj.slim), np.array(obj.native)
+        if os_.shape != (h * w, 2) or on_.shape != (h, w, 2): raise AssertionError(f"shape of forms {os_.shape} {on_.shape}")
+        exact(os_); exact(on_)
+        out = [ints(os_[:, 0]), ints(os_[:, 1]), ints2(on_[:, :, 0]), ints2(on_[:, :, 1])]
+        coq = [f"(KGrid {cm} {cbool(ni)} false {cgrid(n0)} {cgrid(n1)} {cvec(s0)} {cvec(s1)} "
+               f"{cvec(out[0])} {cvec(out[1])} {cgrid(out[2])} {cgrid(out[3])})"]
+    else:
+        # 1-D: h == 1
+        C = aa.Array1D if cls == "array1d" else aa.Grid1D
+        which = inp.get("which")
+        if which:
+            c = float(inp.get("c", 3)); n0 = [[{"full": int(c), "ones": 1, "zeros": 0}[which]] * w]
+            if which == "full": obj = aa.Array1D.full(fill_value=c, shape_native=w, pixel_scales=0.25, origin=(1.5,))
+            elif which == "ones": obj = aa.Array1D.ones(shape_native=w, pixel_scales=0.25, origin=(1.5,))
+            else: obj = aa.Array1D.zeros(shape_native=w, pixel_scales=0.25, origin=(1.5,))
+        else:
+            values = forms(np.array(n0[0], dtype=float)); before = snap(values)
+            obj = C.no_mask(values=values, pixel_scales=0.25, origin=(1.5,))
+            unchanged(chk, "the values argument", values, before)
+        os_, on_ = np.array(obj.slim), np.array(obj.native)
+        if os_.shape != (w,) or on_.shape != (w,): raise AssertionError(f"shape of forms {os_.shape} {on_.shape}")
+        exact(os_); exact(on_)
+        out = [ints(os_), ints(on_)]
+        coq = [f"(KArray1 {clist([cbool(False)] * w)} true false {cvec(n0[0])} {cvec(n0[0])} {cvec(out[0])} {cvec(out[1])})"]
+    mk = np.array(obj.mask)
+    if mk.shape != ((w,) if cls in ("array1d", "grid1d") else (h, w)) or mk.any(): chk.bad.append("the mask of a no_mask object is not all-False of the native shape")
+    return chk.result({"coq": coq[0], "extra_coq": coq[1:], "out": out, "kind": "nomask:" + cls, "nontrivial": h * w > 1})
+
+# ----------------------------------------------------------------------------- apply_mask
+def run_apply(aa, inp):
+    """obj = C(values, mask(m), store_native); obj.apply_mask(mask(m2)) read in both forms (and twice); the first object must
+    read as before afterwards"""
+    cls = inp["cls"]; m, m2 = inp["m"], inp["m2"]; h, w = len(m), len(m[0]); k = inp.get("k", 0); sc = 2.0 ** inp.get("e", 0)
+    ni, sn = inp["ni"], inp["sn"]
+    chk = Checks()
+    ma, mb = np.array(m, dtype=bool), np.array(m2, dtype=bool)
+    mask = make_mask(aa, ma, inp.get("mt", 0)); mask2 = make_mask(aa, mb, inp.get("mt2", 0))
+    planes = 2 if cls == "vector" else 1
+    nat = [vals(h, w, k)] + ([[[7 - v for v in r] for r in vals(h, w, k)]] if planes == 2 else [])
+    sl = [slim_of(p, m) for p in nat]
+    src = nat if ni else sl
+    a = [np.array(p, dtype=float) * sc for p in src]
+    values = np.stack(a, axis=-1) if planes == 2 else a[0]
+    if inp.get("nf") and ni: poison(values, ma)
+    before = snap(values); mb4, mb5 = snap(mask), snap(mask2)
+    if cls == "vector":
+        g = aa.Grid2D.from_mask(mask=mask)
+        obj = aa.VectorYX2D(values=values, grid=g.native if ni else g, mask=mask, store_native=sn)
+    else:
+        obj = (aa.Array2D if cls == "array" else aa.Kernel2D)(values=values, mask=mask, store_native=sn)
+    pre = inp.get("pre", 0)
+    if pre:
+        # a DERIVED object: after `obj + c` a natively stored array holds c, not zero, at its masked pixels
+        obj = obj + float(pre) * sc
+        nat = [[[v + pre for v in r] for r in p_] for p_ in nat]; sl = [[v + pre for v in p_] for p_ in sl]
+    first = (np.array(obj.slim), np.array(obj.native))
+    new = obj.apply_mask(mask=mask2)
+    s1, n1 = np.array(new.slim), np.array(new.native)
+    chk.same("second read of .slim differs", s1, np.array(new.slim)); chk.same("second read of .native differs", n1, np.array(new.native))
+    if not np.array_equal(np.array(new.mask), mb): chk.bad.append("the result of apply_mask does not carry the new mask")
+    chk.same("the object apply_mask was called on reads differently afterwards (slim)", first[0], np.array(obj.slim))
+    chk.same("the object apply_mask was called on reads differently afterwards (native)", first[1], np.array(obj.native))
+    unchanged(chk, "the values argument", values, before); unchanged(chk, "the first Mask2D", mask, mb4); unchanged(chk, "the second Mask2D", mask2, mb5)
+    s, n = descale(s1, sc), descale(n1, sc)
+    cnt2 = int((~mb).sum())
+    if s.shape != ((cnt2,) if planes == 1 else (cnt2, 2)) or n.shape != ((h, w) if planes == 1 else (h, w, 2)):
+        raise AssertionError(f"shape of forms {s.shape} {n.shape}")
+    cases = []; out = []
+    for q in range(planes):
+        os_ = ints(s if planes == 1 else s[:, q]); on_ = ints2(n if planes == 1 else n[:, :, q])
+        out.append([os_, on_])
+        cases.append(f"(KApply {cmask(m)} {cmask(m2)} {cbool(ni)} {cbool(sn)} {cgrid(nat[q])} {cvec(sl[q])} {cvec(os_)} {cgrid(on_)})")
+    return chk.result({"coq": cases[0], "extra_coq": cases[1:], "out": out, "kind": "apply:" + cls,
+                       "nontrivial": bool((ma.any() and not ma.all()) or (mb.any() and not mb.all()))})
+
+# ----------------------------------------------------------------------------- histories of one Mask1D
+def run_maskhist1(aa, inp):
+    """a Mask1D edited in place / copied / replaced; after every step Array1D / Grid1D are built on the SAME mask object from
+    native and from slim values and read in both forms"""
+    from autoarray.mask import mask_1d_util
+    r = list(inp["r"]); n = len(r); chk = Checks()
+    ra = np.array(r, dtype=bool); ra0 = ra.copy()
+    mask = aa.Mask1D(mask=ra, pixel_scales=1.0)
+    native = [5 + 3 * x for x in range(n)]
+    cases = []; outs = []
+    def read(mk, cur, j):
+        cnt = cur.count(False)
+        C = [aa.Array1D, aa.Grid1D][j % 2]; sn = bool((j // 2) % 2)
+        slim_in = [900 + 7 * t for t in range(cnt)]
+        for ni in (True, False):
+            v = np.array(native if ni else slim_in, dtype=float)
+            o = C(values=v, mask=mk, store_native=sn)
+            os_, on_ = np.array(o.slim), np.array(o.native)
+            if os_.shape != (cnt,) or on_.shape != (n,): raise AssertionError(f"shape of 1-D forms {os_.shape} {on_.shape}")
+            exact(os_); exact(on_)
+            outs.append([ints(os_), ints(on_)])
+            cases.append(f"(KArray1 {clist([cbool(b) for b in cur])} {cbool(ni)} {cbool(sn)} {cvec(native)} {cvec(slim_in)} {cvec(ints(os_))} {cvec(ints(on_))})")
+        nfs = mask_1d_util.native_index_for_slim_index_1d_from(mask_1d=np.array(mk))
+        cases.append("(KNativeForSlim1 " + clist([cbool(b) for b in cur]) + " " + clist([cnat(x) for x in ints(nfs)]) + ")")
+        if mk.pixels_in_mask != cnt: chk.bad.append("pixels_in_mask of the edited Mask1D")
+    cur = list(r); read(mask, cur, 0); left = []
+    for j, op in enumerate(inp["ops"]):
+        if op[0] == "set": mask[op[1]] = op[2]; cur[op[1]] = op[2]
+        elif op[0] == "copy": left.append((mask, list(cur))); mask = mask.copy()
+        elif op[0] == "new": left.append((mask, list(cur))); mask = mask.with_new_array(np.array(op[1], dtype=bool)); cur = list(op[1])
+        else: raise ValueError(op)
+        if not np.array_equal(np.array(mask), np.array(cur, dtype=bool)): raise AssertionError("the mask does not hold the edited contents")
+        read(mask, cur, j + 1)
+    for j, (mk, c) in enumerate(left): read(mk, c, j)
+    chk.same("the caller's mask array was modified", ra, ra0)
+    return chk.result({"coq": cases[0], "extra_coq": cases[1:], "out": outs, "kind": "maskhist1", "nontrivial": True})
+
+def run_seq(inp):
+    """several cases evaluated one after the other inside ONE case, so that a replay of the case alone reproduces anything
+    remembered from an earlier call (module-level / per-mask caches keyed too coarsely)"""
+    rows = [run_case(it) for it in inp["items"]]
+    cases = []
+    for r in rows: cases += [r["coq"]] + list(r.get("extra_coq") or [])
+    res = {"coq": cases[0], "extra_coq": cases[1:], "out": [r.get("out") for r in rows], "kind": "seq", "nontrivial": True}
+    bad = [r.get("detail", "?") for r in rows if r.get("py_ok") is False]
+    if bad: res["py_ok"] = False; res["detail"] = "; ".join(bad)
+    return res
 
 def run_case(inp):
     aa = import_aa()
-    from autoarray.structures.arrays import array_2d_util
-    from autoarray.mask import mask_2d_util, mask_1d_util
+    from autoarray.mask import mask_1d_util
     op = inp["op"]
     if op == "hist": return run_hist(aa, inp)
     if op == "maskhist": return run_maskhist(aa, inp)
+    if op == "maskhist1": return run_maskhist1(aa, inp)
+    if op == "seq": return run_seq(inp)
+    if op == "utilseq": return run_utilseq(aa, inp)
+    if op == "util2": return run_util2(aa, inp)
+    if op == "nomask": return run_nomask(aa, inp)
+    if op == "apply": return run_apply(aa, inp)
     sc = 2.0 ** inp.get("e", 0)
     chk = Checks()
     if op in ("array1d", "grid1d"):
         r = inp["r"]; n = len(r)
         native = [5 + 3 * x for x in range(n)]
+        if inp.get("k") == 5: native = [(x + x // 3) % 2 for x in range(n)]
         slim = [v for v, b in zip(native, r) if not b]
         slim_in = [v + 100 for v in slim]
+        if inp.get("k") == 5: slim_in = [1 - v for v in slim]
         ra = np.array(r)
         mask = make_mask(aa, ra, inp.get("mt", 0), one_d=True)
         values = np.array(native if inp["ni"] else slim_in, dtype=float) * sc
         nf = bool(inp.get("nf")) and inp["ni"]
         if nf: poison(values, ra)
-        values0 = values.copy()
+        values0 = values.copy(); mask_before = snap(mask)
         cls = aa.Array1D if op == "array1d" else aa.Grid1D
-        obj = cls(values=give(values, inp.get("vt", 0), sc == 1.0 and not nf, lambda v: cls(values=v, mask=mask, store_native=not inp["sn"])),
-                  mask=mask, store_native=inp["sn"])
+        given = give(values, inp.get("vt", 0), sc == 1.0 and not nf, lambda v: cls(values=v, mask=mask, store_native=not inp["sn"]),
+                     lambda v: subclass(aa, cls.__name__)(values=v, mask=mask, store_native=inp["sn"]))
+        before = snap(given)
+        obj = cls(values=given, mask=mask, store_native=inp["sn"])
+        unchanged(chk, "the values argument (" + before[0] + ")", given, before)
         stored_ok(chk, obj, inp["sn"], obj.slim, obj.native, op)
         os_, on_ = descale(obj.slim, sc), descale(obj.native, sc)
+        if os_.shape != (len(slim),) or on_.shape != (n,): raise AssertionError(f"shape of 1-D forms {os_.shape} {on_.shape}")
         chk.same("the caller's values array was modified", values, values0)
         chk.same("the caller's mask array was modified", ra, np.array(r))
+        unchanged(chk, "the Mask1D", mask, mask_before)
         chk.same("second read of .native differs", on_, descale(obj.native, sc))
+        chk.same("second read of .slim differs", os_, descale(obj.slim, sc))
         out = [ints(os_), ints(on_)]
         nfs = mask_1d_util.native_index_for_slim_index_1d_from(mask_1d=np.array(r))
         coq = (f"KArray1 {clist([cbool(b) for b in r])} {cbool(inp['ni'])} {cbool(inp['sn'])} {cvec(native)} {cvec(slim_in)} "
@@ -492,74 +1056,101 @@ def run_case(inp):
     ma = np.array(m, dtype=bool); ma0 = ma.copy()
     nontrivial = bool(ma.any() and not ma.all())
     native = vals(h, w, k)
-    slim = [native[y][x] + 1000 for y in range(h) for x in range(w) if not m[y][x]]
+    slim = slim_of(native, m)
+    if k == 5: slim = [1 - (v - 1000) for v in slim]
     if op == "util":
         an = np.array(native, dtype=float); asl = np.array(slim, dtype=float)
-        s1 = array_2d_util.array_2d_slim_from(array_2d_native=an, mask_2d=ma)
-        n1 = array_2d_util.array_2d_native_from(array_2d_slim=asl, mask_2d=ma)
-        idx = mask_2d_util.native_index_for_slim_index_2d_from(mask_2d=ma)
-        um = mask_2d_util.mask_slim_indexes_from(mask_2d=ma, return_masked_indexes=False)
-        mk = mask_2d_util.mask_slim_indexes_from(mask_2d=ma, return_masked_indexes=True)
-        chk.same("a util function modified its array argument", an, np.array(native, dtype=float))
-        chk.same("a util function modified its array argument", asl, np.array(slim, dtype=float))
-        chk.same("a util function modified its mask argument", ma, ma0)
-        exact(s1); exact(n1)
-        out = [ints(s1), ints2(n1), [[int(a), int(b)] for a, b in np.asarray(idx).reshape(-1, 2)], ints(um), ints(mk)]
-        cm = cmask(m)
-        cases = [f"(KSlimFrom {cm} {cgrid(native)} {cvec(out[0])})",
-                 f"(KNativeFrom {cm} {cvec(slim)} {cgrid(out[1])})",
-                 "(KNativeForSlim " + cm + " " + clist([ctup([cnat(a), cnat(b)]) for a, b in out[2]]) + ")",
-                 "(KMaskIdx " + cm + " false " + clist([cnat(x) for x in out[3]]) + ")",
-                 "(KMaskIdx " + cm + " true " + clist([cnat(x) for x in out[4]]) + ")"]
+        out, cases = util_cases(ma, an, asl, m, native, slim, chk)
         return chk.result({"coq": cases[0], "extra_coq": cases[1:], "out": out, "kind": "util", "nontrivial": nontrivial})
     mask = make_mask(aa, ma, inp.get("mt", 0))
+    mask_before = snap(mask)
     ni, sn = inp["ni"], inp["sn"]; vt = inp.get("vt", 0)
     nf = bool(inp.get("nf")) and ni
+    cnt = len(slim)
     if op == "array":
+        C = aa.Kernel2D if inp.get("cls") == "kernel" else aa.Array2D
         values = np.array(native if ni else slim, dtype=float) * sc
         if nf: poison(values, ma)
         values0 = values.copy()
-        obj = aa.Array2D(values=give(values, vt, sc == 1.0 and not nf, lambda v: aa.Array2D(values=v, mask=mask, store_native=not sn)),
-                         mask=mask, store_native=sn)
+        given = give(values, vt, sc == 1.0 and not nf, lambda v: C(values=v, mask=mask, store_native=not sn),
+                     lambda v: subclass(aa, C.__name__)(values=v, mask=mask, store_native=sn))
+        before = snap(given)
+        obj = C(values=given, mask=mask, store_native=sn)
+        unchanged(chk, "the values argument (" + before[0] + ")", given, before)
         stored_ok(chk, obj, sn, obj.slim, obj.native, op)
         os_, on_ = descale(obj.slim, sc), descale(obj.native, sc)
+        if os_.shape != (cnt,) or on_.shape != (h, w): raise AssertionError(f"shape of forms {os_.shape} {on_.shape}")
         chk.same("the caller's values array was modified", values, values0)
         chk.same("the caller's mask array was modified", ma, ma0)
         chk.same("the Mask2D was modified", np.array(mask), ma0)
+        unchanged(chk, "the Mask2D", mask, mask_before)
         chk.same("second read of .slim differs", os_, descale(obj.slim, sc))
-        # index views of the mask must agree with the util functions
+        chk.same("second read of .native differs", on_, descale(obj.native, sc))
+        if not sn: chk.same("native_skip_mask of a slim-stored array differs from .native", on_, descale(obj.native_skip_mask, sc))
+        # index views of the mask must agree with the util functions (read through the structure and through the mask)
         di = mask.derive_indexes
         dn = np.asarray(di.native_for_slim).reshape(-1, 2)
+        chk.same("obj.derive_indexes.native_for_slim differs from the mask's", dn, np.asarray(obj.derive_indexes.native_for_slim).reshape(-1, 2))
         out = [ints(os_), ints2(on_), [[int(a), int(b)] for a, b in dn], ints(di.unmasked_slim), ints(di.masked_slim)]
         cm = cmask(m)
         coq = f"(KArray {cm} {cbool(ni)} {cbool(sn)} {cgrid(native)} {cvec(slim)} {cvec(out[0])} {cgrid(out[1])})"
         extra = ["(KNativeForSlim " + cm + " " + clist([ctup([cnat(a), cnat(b)]) for a, b in out[2]]) + ")",
                  "(KMaskIdx " + cm + " false " + clist([cnat(x) for x in out[3]]) + ")",
                  "(KMaskIdx " + cm + " true " + clist([cnat(x) for x in out[4]]) + ")"]
-        return chk.result({"coq": coq, "extra_coq": extra, "out": out, "kind": "array", "nontrivial": nontrivial})
+        return chk.result({"coq": coq, "extra_coq": extra, "out": out, "kind": "kernel" if C is aa.Kernel2D else "array", "nontrivial": nontrivial})
     # grid / vector: two planes (y-plane = native values, x-plane = negated + 7)
     ny = native; nx = [[7 - v for v in r] for r in native]
     sy = slim; sx = [7 - v for v in slim]
+    if k == 5: nx = [[1 - v for v in r] for r in native]; sx = [1 - v for v in slim]
     if ni: values = np.stack([np.array(ny, dtype=float), np.array(nx, dtype=float)], axis=-1) * sc
     else: values = np.stack([np.array(sy, dtype=float), np.array(sx, dtype=float)], axis=-1).reshape(-1, 2) * sc
     if nf: poison(values, ma)
     values0 = values.copy()
+    extra = []
     if op == "grid":
-        obj = aa.Grid2D(values=give(values, vt, sc == 1.0 and not nf, lambda v: aa.Grid2D(values=v, mask=mask, store_native=not sn)),
-                        mask=mask, store_native=sn)
+        given = give(values, vt, sc == 1.0 and not nf, lambda v: aa.Grid2D(values=v, mask=mask, store_native=not sn),
+                     lambda v: subclass(aa, "Grid2D")(values=v, mask=mask, store_native=sn))
+        before = snap(given)
+        obj = aa.Grid2D(values=given, mask=mask, store_native=sn)
     else:
-        g = aa.Grid2D.from_mask(mask=mask)
-        gg = g.native if ni else g
-        obj = aa.VectorYX2D(values=give(values, vt, sc == 1.0 and not nf,
-                                        lambda v: aa.VectorYX2D(values=v, grid=gg, mask=mask, store_native=not sn)),
-                            grid=gg, mask=mask, store_native=sn)
+        # the grid of a vector field: its own (integer) values, handed over in a form chosen independently of the values'
+        gn = inp.get("gn", ni); gt = inp.get("gt", 0)
+        gy = [[500 + 3 * (y * w + x) for x in range(w)] for y in range(h)]; gx = [[-(40 + y * w + 2 * x) for x in range(w)] for y in range(h)]
+        gsy = [gy[y][x] + 1000 for y in range(h) for x in range(w) if not m[y][x]]; gsx = [9 - v for v in gsy]
+        if gn: garr = np.stack([np.array(gy, dtype=float), np.array(gx, dtype=float)], axis=-1)
+        else: garr = np.stack([np.array(gsy, dtype=float), np.array(gsx, dtype=float)], axis=-1).reshape(-1, 2)
+        if gt == 1: gg = garr.tolist()
+        elif gt == 2: gg = aa.Grid2D(values=garr, mask=mask, store_native=gn)
+        elif gt == 3: gg = aa.Grid2D(values=garr, mask=mask, store_native=not gn)
+        else: gg = garr
+        gbefore = snap(gg)
+        given = give(values, vt, sc == 1.0 and not nf, lambda v: aa.VectorYX2D(values=v, grid=gg, mask=mask, store_native=not sn),
+                     lambda v: subclass(aa, "VectorYX2D")(values=v, grid=gg, mask=mask, store_native=sn))
+        before = snap(given)
+        obj = aa.VectorYX2D(values=given, grid=gg, mask=mask, store_native=sn)
+        unchanged(chk, "the grid argument (" + gbefore[0] + ")", gg, gbefore)
+        gs_, gn_ = np.array(obj.grid.slim), np.array(obj.grid.native)
+        if gs_.shape != (cnt, 2) or gn_.shape != (h, w, 2): raise AssertionError(f"shape of the forms of .grid {gs_.shape} {gn_.shape}")
+        exact(gs_); exact(gn_)
+        extra.append(f"(KGrid {cmask(m)} {cbool(gn)} false {cgrid(gy)} {cgrid(gx)} {cvec(gsy)} {cvec(gsx)} "
+                     f"{cvec(ints(gs_[:, 0]))} {cvec(ints(gs_[:, 1]))} {cgrid(ints2(gn_[:, :, 0]))} {cgrid(ints2(gn_[:, :, 1]))})")
+        # the component views
+        yv, xv = obj.y, obj.x
+        extra_y = (descale(yv.slim, sc), descale(xv.slim, sc), descale(yv.native, sc), descale(xv.native, sc))
+    unchanged(chk, "the values argument (" + before[0] + ")", given, before)
     stored_ok(chk, obj, sn, obj.slim, obj.native, op)
     os_, on_ = descale(obj.slim, sc), descale(obj.native, sc)
+    if os_.shape != (cnt, 2) or on_.shape != (h, w, 2): raise AssertionError(f"shape of forms {os_.shape} {on_.shape}")
     chk.same("the caller's values array was modified", values, values0)
     chk.same("the Mask2D was modified", np.array(mask), ma0)
+    unchanged(chk, "the Mask2D", mask, mask_before)
     chk.same("second read of .native differs", on_, descale(obj.native, sc))
+    chk.same("second read of .slim differs", os_, descale(obj.slim, sc))
     os_ = os_.reshape(-1, 2)
+    if op == "vector":
+        chk.same(".y.slim differs from the first plane of .slim", extra_y[0], os_[:, 0]); chk.same(".x.slim differs from the second plane of .slim", extra_y[1], os_[:, 1])
+        chk.same(".y.native differs from the first plane of .native", extra_y[2], on_[:, :, 0]); chk.same(".x.native differs from the second plane of .native", extra_y[3], on_[:, :, 1])
     out = [ints(os_[:, 0]), ints(os_[:, 1]), ints2(on_[:, :, 0]), ints2(on_[:, :, 1])]
     coq = (f"(KGrid {cmask(m)} {cbool(ni)} {cbool(sn)} {cgrid(ny)} {cgrid(nx)} {cvec(sy)} {cvec(sx)} "
            f"{cvec(out[0])} {cvec(out[1])} {cgrid(out[2])} {cgrid(out[3])})")
-    return chk.result({"coq": coq, "out": out, "kind": op, "nontrivial": nontrivial})
+    return chk.result({"coq": coq, "extra_coq": extra, "out": out, "kind": op, "nontrivial": nontrivial})
